@@ -82,11 +82,13 @@ theorem docOf_jeq (comp : PyVal) {o o' : OutCells} (h : JEq o.toPy o'.toPy) : JE
   · simp only [List.map_cons, List.map_nil]; decide
   · simp only [List.map_cons, List.map_nil]; decide
 
+end Img
+open Img PM.PyOps PM.Spec in
 /-- **C08 (images).**  Two manifests with the same content are written as the same bytes, whatever the order in which
 variants, arches and images were added, provided no two images of one cell share a path (the per-cell sort is by path
 only; see `C08_images_equal_paths_witness` for what happens otherwise).
 Stronger than the `ok b → ok b` form: as soon as the writer accepts every image of `x`, the complete results agree. -/
-theorem C08_perm_images (x y : ImgState) (h : Same x y) (hd : DistinctPaths (triples x.cells))
+theorem C08_perm_images (x y : Img.ImgState) (h : Img.Same x y) (hd : DistinctPaths (triples x.cells))
     (o : OutCells) (hx : serializeCells x.cells [] = .ok o) : (dumps y).2 = (dumps x).2 := by
   have vx := serializeCells_ok_valid _ _ _ hx
   have vtx := triples_valid vx
@@ -107,8 +109,9 @@ theorem C08_perm_images (x y : ImgState) (h : Same x y) (hd : DistinctPaths (tri
       have hj := docOf_jeq comp (outFold_jeq h.filings hd)
       rw [jsonSafe_jeq hj, hj.dumps_eq]
 
+open Img PM.PyOps PM.Spec in
 /-- the form of the property statement: the same bytes -/
-theorem C08_perm_images_bytes (x y : ImgState) (h : Same x y) (hd : DistinctPaths (triples x.cells)) (b : Str)
+theorem C08_perm_images_bytes (x y : Img.ImgState) (h : Img.Same x y) (hd : DistinctPaths (triples x.cells)) (b : Str)
     (hx : (dumps x).2 = .ok b) : (dumps y).2 = .ok b := by
   cases hs : serializeCells x.cells [] with
   | ok o => rw [C08_perm_images x y h hd o hs]; exact hx
@@ -132,9 +135,10 @@ theorem C08_perm_images_bytes (x y : ImgState) (h : Same x y) (hd : DistinctPath
         | error e => simp [Except.bind] at hx
         | ok c => simp [Except.bind] at hx
 
+open Img PM.PyOps PM.Spec in
 /-- **C08 repeat (images).**  `dumps` changes the object (`header.version` becomes the current version) but not what the
 next `dumps` writes. -/
-theorem C08_repeat_images (s : ImgState) : (dumps (dumps s).1).2 = (dumps s).2 := by
+theorem C08_repeat_images (s : Img.ImgState) : (dumps (dumps s).1).2 = (dumps s).2 := by
   have h1 : (dumps s).1.compose = s.compose ∧ (dumps s).1.cells = s.cells := by
     unfold dumps
     cases validateClass "images.Images" [] with
@@ -149,8 +153,9 @@ theorem C08_repeat_images (s : ImgState) : (dumps (dumps s).1).2 = (dumps s).2 :
       cases r <;> exact ⟨rfl, rfl⟩
   rw [dumps_snd, dumps_snd, serialize_snd, serialize_snd, h1.1, h1.2]
 
+open Img PM.PyOps PM.Spec in
 /-- what the object is afterwards: only the header version moved -/
-theorem C08_repeat_images_state (s : ImgState) :
+theorem C08_repeat_images_state (s : Img.ImgState) :
     (dumps s).1 = s ∨ (dumps s).1 = { s with version := .str currentVersion } := by
   unfold dumps
   cases validateClass "images.Images" [] with
@@ -164,7 +169,6 @@ theorem C08_repeat_images_state (s : ImgState) :
     subst this
     cases r <;> exact .inr rfl
 
-end Img
 /-! ## composeinfo -/
 namespace CI
 
@@ -190,9 +194,11 @@ theorem serialize_of_variants (x y : ComposeInfo) (h : Same x y) (d : Flat) (hx 
   unfold serialize
   rw [← h.compose, ← h.release, ← h.base, hx, hy]
 
+end CI
+open CI in
 /-- **C08 (composeinfo).**  The same content is written as the same bytes, whatever the order in which variants (at any
 level), arches and paths were added. -/
-theorem C08_perm_composeinfo (x y : ComposeInfo) (h : Same x y) (hk : DictKeysTop x) (b : Str)
+theorem C08_perm_composeinfo (x y : CI.ComposeInfo) (h : CI.Same x y) (hk : CI.DictKeysTop x) (b : Str)
     (hx : dumps x = .ok b) : dumps y = .ok b := by
   cases hv : variantsSer x.variants with
   | ok d =>
@@ -227,13 +233,13 @@ theorem C08_perm_composeinfo (x y : ComposeInfo) (h : Same x y) (hk : DictKeysTo
             | error e => simp at hx
             | ok u4 => simp at hx
 
+open CI in
 /-- whether a dump succeeds does not depend on the order either -/
-theorem C08_perm_composeinfo_ok (x y : ComposeInfo) (h : Same x y) (hk : DictKeysTop x) :
+theorem C08_perm_composeinfo_ok (x y : CI.ComposeInfo) (h : CI.Same x y) (hk : CI.DictKeysTop x) :
     isOk (dumps x) = true → isOk (dumps y) = true := by
   intro hx
   cases hd : dumps x with
   | error e => rw [hd] at hx; cases hx
   | ok b => rw [C08_perm_composeinfo x y h hk b hd]; rfl
 
-end CI
 end PM
